@@ -314,3 +314,15 @@ def saturate_partial_drain(mw=3, timeout=0.05):
     ops += [sub(k, "gate") for k in keys[1:]] + [["expect_inside", mw]]
     ops += [["release", k] for k in keys] + [WAIT, shutdown(True)]
     return P(f"saturate-partial-drain-w{mw}", pool(max_workers=mw, timeout=timeout), ops)
+
+
+def memory_leak_respawn(mw=1, init=None, form="await"):
+    """The worker's memory-leak protection makes it leave after a task (psutil reports growth
+    more than one second after the reference measurement); queued work needs a re-spawn."""
+    ops = [NEW, sub("a", "ok", 1), ["result", "a"], ["sleep", 1.5], sub("l", "leak"),
+           sub("b", "ok", 2), sub("c", "ok", 3)]
+    if form == "await":
+        ops += [WAIT, shutdown(True)]
+    elif form == "nowait":
+        ops += [shutdown(False), WAIT]
+    return P(f"memleak-w{mw}-i{init}-{form}", pool(max_workers=mw, timeout=None, init=init), ops)
